@@ -135,6 +135,7 @@ partial def parseStmt (tp : TimeParser τ) : Sexp → Stmt τ
     .claim r.nat! (am.map Sexp.int!) bind.nat! (body.map (parseStmt tp))
   | .list [.atom "reschange", r, k, .list am] => .resChange r.nat! k.nat! (am.map Sexp.int!)
   | .list [.atom "levels", r] => .logLevels r.nat!
+  | .list (.atom "respool" :: order) => .resPool (order.map Sexp.nat!)
   | .list [.atom "transfer", p, total, thr] => .transfer p.nat! (tm tp total) (optTm tp thr)
   | .list (.atom "interval" :: period :: n :: body) => .interval (tm tp period) n.nat! (body.map (parseStmt tp))
   | .list (.atom "delayiter" :: period :: n :: body) => .delayIter (tm tp period) n.nat! (body.map (parseStmt tp))
